@@ -658,6 +658,45 @@ theorem no_policy_single_fiber (idem : Bool) (dl : Option Nat) (plan : List τ) 
   have ha := attempts_le_running hi (one_attempt_per_fiber idem none dl plan evs hseq)
   exact ⟨by omega, by omega, by omega⟩
 
+/-! #### provenance of what the gate sees (session APIs) -/
+
+/-- The flag handed to the gate is the statement's own — for a batch the BATCH's (`batch.config`): the member
+statements' flags never matter. -/
+theorem gate_flag_ignores_members (idem : Bool) (ms ms' : List Bool) (own : Option (Option Nat)) (dflt : Option Nat) :
+    (Submitted.mk idem ms own dflt).gateIdempotent = (Submitted.mk idem ms' own dflt).gateIdempotent := rfl
+
+/-- **A batch that is not marked idempotent has exactly one execution** — whatever its members are marked, whichever
+profile supplies whatever speculative policy, for every plan, timeout and schedule. -/
+theorem unmarked_batch_single_execution (members : List Bool) (own : Option (Option Nat)) (dflt : Option Nat)
+    (dl : Option Nat) (plan : List τ) (evs : List (Event α)) :
+    let s := run ((Submitted.mk false members own dflt).start dl plan : St α τ) evs
+    s.started = 1 ∧ s.running.length ≤ 1 :=
+  nonidempotent_single_execution _ dl plan evs
+
+/-- The policy that bounds the executions is the CHOSEN profile's: the statement's (batch's) handle if it has one —
+the session default is then irrelevant — else the session default. -/
+theorem started_le_chosen_profile (r : Submitted) (dl : Option Nat) (plan : List τ) (evs : List (Event α)) :
+    (run (r.start dl plan : St α τ) evs).started ≤ 1 + (r.gatePolicy).getD 0 := by
+  have hi := run_inv (inv_init r.gateIdempotent r.gatePolicy dl plan (α := α)) evs
+  have h1 := hi.budget
+  have h2 := hi.started_pos
+  unfold Submitted.start
+  omega
+
+theorem gate_policy_own_profile (idem : Bool) (ms : List Bool) (p : Option Nat) (dflt dflt' : Option Nat) :
+    (Submitted.mk idem ms (some p) dflt).gatePolicy = p ∧
+    (Submitted.mk idem ms (some p) dflt).gatePolicy = (Submitted.mk idem ms (some p) dflt').gatePolicy := ⟨rfl, rfl⟩
+
+theorem gate_policy_session_default (idem : Bool) (ms : List Bool) (dflt : Option Nat) :
+    (Submitted.mk idem ms none dflt).gatePolicy = dflt := rfl
+
+-- an unmarked batch of members that are all marked idempotent, under an aggressive policy: still one execution
+example : (run ((Submitted.mk false [true, true] none (some 3)).start none [10, 11, 12] : St Nat Nat)
+    [.pop 0, .send 0, .timerFires, .timerFires, .pop 1, .send 1]).started = 1 := by decide
+-- the statement's profile (max 1) wins over the session default (max 3)
+example : (run ((Submitted.mk true [] (some (some 1)) (some 3)).start none ([] : List Nat) : St Nat Nat)
+    [.timerFires, .timerFires, .timerFires]).started = 2 := by decide
+
 -- non-vacuity: with the same policy an idempotent request does get a second execution after a timer tick
 example : (run (init true (some 2) none [10, 11, 12] : St Nat Nat) [.pop 0, .send 0, .timerFires, .pop 1, .send 1]).attempts
     = [(1, 11), (0, 10)] := by decide
